@@ -122,6 +122,133 @@ fn step(_: &mut (), t: &mut Toks) -> R<String> {
             let okflag = fit(&mut glm, &p2, max_iter);
             Ok(report(&glm, okflag, &p2))
         }
+        // set_coef in the four positions of the object's life cycle (see Drv/C06.lean)
+        "setcoef" => {
+            let fam = family(t.tok()?)?;
+            let mode = t.usize()?;
+            let (alpha, tol) = (t.f64()?, t.f64()?);
+            let max_iter = t.usize()?;
+            let c = t.vec()?;
+            let p1 = problem(t)?;
+            let p2 = if mode == 2 { Some(problem(t)?) } else { None };
+            t.end()?;
+            let mut glm = GLM::new(fam);
+            glm.set_penalty(alpha).set_tolerance(tol);
+            match mode {
+                0 => {
+                    let okflag = fit(&mut glm, &p1, max_iter);
+                    glm.set_coef(&c);
+                    Ok(report(&glm, okflag, &p1))
+                }
+                1 => {
+                    glm.set_coef(&c);
+                    let coef = glm.coef().unwrap().to_vec();
+                    let dev = match guarded(|| glm.deviance().unwrap()) {
+                        Some(d) => show_f(d),
+                        None => "P".to_string(),
+                    };
+                    let pred = guarded(|| glm.predict(&p1.x).unwrap().to_vec());
+                    Ok(ok(format!("{} {} {}", show_vec(&coef), dev, show_opt_vec(pred))))
+                }
+                2 => {
+                    let p2 = p2.unwrap();
+                    let _ = fit(&mut glm, &p1, max_iter);
+                    glm.set_coef(&c);
+                    let okflag = fit(&mut glm, &p2, max_iter);
+                    Ok(report(&glm, okflag, &p2))
+                }
+                3 => {
+                    glm.set_coef(&c);
+                    let okflag = fit(&mut glm, &p1, max_iter);
+                    Ok(report(&glm, okflag, &p1))
+                }
+                _ => Err(BadOp),
+            }
+        }
+        // object history: k times (set_penalty, set_tolerance, [set_weights], [set_offset], [set_coef], fit) on ONE object;
+        // the accessor report after every fit, joined by ` ; `
+        "hist" => {
+            let fam = family(t.tok()?)?;
+            let k = t.usize()?;
+            let mut steps = Vec::new();
+            for _ in 0..k {
+                let (alpha, tol) = (t.f64()?, t.f64()?);
+                let max_iter = t.usize()?;
+                let c = opt_vec(t)?;
+                let pr = problem(t)?;
+                steps.push((alpha, tol, max_iter, c, pr));
+            }
+            t.end()?;
+            let mut glm = GLM::new(fam);
+            let mut reps = Vec::new();
+            for (alpha, tol, max_iter, c, pr) in &steps {
+                glm.set_penalty(*alpha).set_tolerance(*tol);
+                if let Some(c) = c {
+                    glm.set_coef(c);
+                }
+                let okflag = fit(&mut glm, pr, *max_iter);
+                let r = report(&glm, okflag, pr);
+                reps.push(r[2..].to_string());
+            }
+            Ok(ok(reps.join(" ; ")))
+        }
+        // the methods of ExponentialFamily, called directly
+        "fam" => {
+            let fam = family(t.tok()?)?;
+            let meth = t.tok()?;
+            let r = match meth {
+                "has_dispersion" => show_bool(fam.has_dispersion()).to_string(),
+                "variance" => {
+                    let mu = t.vec()?;
+                    t.end()?;
+                    show_vec(&fam.variance(&mu))
+                }
+                "inv_link" => {
+                    let eta = t.vec()?;
+                    t.end()?;
+                    show_vec(&fam.inv_link(&eta))
+                }
+                "d_inv_link" => {
+                    let eta = t.vec()?;
+                    let mu = t.vec()?;
+                    t.end()?;
+                    show_vec(&fam.d_inv_link(&eta, &mu))
+                }
+                "deviance" => {
+                    let y = t.vec()?;
+                    let mu = t.vec()?;
+                    t.end()?;
+                    show_f(fam.deviance(&y, &mu))
+                }
+                "penalized_deviance" => {
+                    let y = t.vec()?;
+                    let mu = t.vec()?;
+                    let alpha = t.f64()?;
+                    let coef = t.vec()?;
+                    t.end()?;
+                    show_f(fam.penalized_deviance(&y, &mu, alpha, &coef))
+                }
+                "iwr" => {
+                    let y = t.vec()?;
+                    t.end()?;
+                    match fam.initial_working_response(&y) {
+                        Some(v) => show_vec(&v),
+                        None => "none".to_string(),
+                    }
+                }
+                "iww" => {
+                    let y = t.vec()?;
+                    t.end()?;
+                    match fam.initial_working_weights(&y) {
+                        Some(v) => show_vec(&v),
+                        None => "none".to_string(),
+                    }
+                }
+                _ => return Err(BadOp),
+            };
+            t.end()?;
+            Ok(ok(r))
+        }
         _ => Err(BadOp),
     }
 }
